@@ -45,13 +45,13 @@ func subs(r *mc.Run) []subSearch {
 	d := r.Pick
 	far := uint64(1<<32 + 2)
 	all := []subSearch{
-		{name: "compactmap/empty", kind: "cm", pre: "empty", uni: pick(p["empty"].uniQ, p["empty"].uniT), unmerged: d(2, 4), depth: d(4, 6), workers: 6},
-		{name: "memory/empty", kind: "memory", pre: "empty", uni: pick(p["empty"].uniQ, p["empty"].uniT), unmerged: d(2, 3), depth: d(4, 5), workers: 6},
-		{name: "leveldb/empty", kind: "leveldb", pre: "empty", uni: pick([]uint64{1, far}, []uint64{2, 3, 1, far}), unmerged: d(2, 3), depth: d(3, 4), workers: 4},
-		{name: "compactmap/batch", kind: "cm", pre: "batch", uni: pick(p["batch"].uniQ, p["batch"].uniT), unmerged: d(2, 3), depth: d(3, 4), workers: 4},
-		{name: "compactmap/batch-1", kind: "cm", pre: "batch-1", uni: pick(p["batch-1"].uniQ, p["batch-1"].uniT), unmerged: d(2, 3), depth: d(3, 4), workers: 4},
-		{name: "compactmap/desc", kind: "cm", pre: "desc", uni: pick(p["desc"].uniQ, p["desc"].uniT), unmerged: d(2, 3), depth: d(3, 5), workers: 4},
-		{name: "memory/desc", kind: "memory", pre: "desc", uni: pick([]uint64{2, 301}, []uint64{2, 301, 599, 600}), unmerged: d(2, 3), depth: d(4, 5), workers: 4},
+		{name: "compactmap/empty", kind: "cm", pre: "empty", uni: pick(p["empty"].uniQ, p["empty"].uniT), unmerged: 2, depth: d(4, 5), workers: 6},
+		{name: "memory/empty", kind: "memory", pre: "empty", uni: pick(p["empty"].uniQ, p["empty"].uniT), unmerged: 2, depth: d(4, 5), workers: 6},
+		{name: "leveldb/empty", kind: "leveldb", pre: "empty", uni: pick([]uint64{1, far}, []uint64{1, far, 2}), unmerged: d(2, 2), depth: d(3, 4), workers: 4},
+		{name: "compactmap/batch", kind: "cm", pre: "batch", uni: pick(p["batch"].uniQ, p["batch"].uniT), unmerged: 2, depth: 3, workers: 4},
+		{name: "compactmap/batch-1", kind: "cm", pre: "batch-1", uni: pick(p["batch-1"].uniQ, p["batch-1"].uniT), unmerged: 2, depth: 3, workers: 4},
+		{name: "compactmap/desc", kind: "cm", pre: "desc", uni: pick(p["desc"].uniQ, p["desc"].uniT), unmerged: 2, depth: d(3, 4), workers: 4},
+		{name: "memory/desc", kind: "memory", pre: "desc", uni: pick([]uint64{2, 301}, []uint64{2, 301, 599}), unmerged: 2, depth: d(4, 5), workers: 4},
 		{name: "sorted/empty", kind: "sorted", pre: "empty", uni: pick([]uint64{1, far}, []uint64{2, 1, far}), depth: d(2, 3), workers: 4, pairs: !q},
 	}
 	if !q {
